@@ -667,16 +667,34 @@ fn reg_order_sweep(rep: &mut Report, max_len: usize) {
 pub fn gen_unusual_pe_func(p: &mut Prng, begin: u32) -> PeFuncSpec {
     let mut codes = Vec::new();
     let mut o = 40u8;
-    let many_pushes = p.chance(1, 4);
-    for _ in 0..(if many_pushes { 7 + p.below(6) } else { 1 + p.below(4) }) {
-        let op = match if many_pushes { 5 } else { p.below(7) } {
-            0 => PeOpSpec::SaveXmm(6, 16 * p.below(8) as u32),
-            1 => PeOpSpec::MachFrame(p.chance(1, 2)),
-            2 => PeOpSpec::AllocLargeRaw(*p.pick(&[12u32, 0x8_0000, 0x7_fff8, 0x8_0004, 1])),
-            3 => PeOpSpec::SaveNonvol(3, 0x10_0000 + 8 * p.below(4) as u32),
-            4 => PeOpSpec::Alloc(8 * (1 + p.below(40) as u32)),
-            5 => PeOpSpec::Push(*p.pick(&[3u8, 5, 6, 7, 12, 13, 14, 15, 0, 4])),
-            _ => PeOpSpec::SetFp,
+    // 0: more pushes than a rule holds; 1: pushes and allocations interleaved (allocation after a
+    // push in the prolog = after a pop when unwinding); otherwise a random mix of unusual codes
+    let mode = p.below(5);
+    let many_pushes = mode == 0;
+    let n_codes = match mode {
+        0 => 7 + p.below(6),
+        1 => 2 + p.below(5),
+        _ => 1 + p.below(4),
+    };
+    for i in 0..n_codes {
+        let op = match mode {
+            0 => PeOpSpec::Push(*p.pick(&[3u8, 5, 6, 7, 12, 13, 14, 15, 0, 4])),
+            1 => {
+                if (i + p.below(2)) % 2 == 0 {
+                    PeOpSpec::Push(*p.pick(&[3u8, 5, 6, 7, 12, 13, 14, 15]))
+                } else {
+                    PeOpSpec::Alloc(8 * (1 + p.below(20) as u32))
+                }
+            }
+            _ => match p.below(7) {
+                0 => PeOpSpec::SaveXmm(6, 16 * p.below(8) as u32),
+                1 => PeOpSpec::MachFrame(p.chance(1, 2)),
+                2 => PeOpSpec::AllocLargeRaw(*p.pick(&[12u32, 0x8_0000, 0x7_fff8, 0x8_0004, 1])),
+                3 => PeOpSpec::SaveNonvol(3, 0x10_0000 + 8 * p.below(4) as u32),
+                4 => PeOpSpec::Alloc(8 * (1 + p.below(40) as u32)),
+                5 => PeOpSpec::Push(*p.pick(&[3u8, 5, 6, 7, 12, 13, 14, 15, 0, 4])),
+                _ => PeOpSpec::SetFp,
+            },
         };
         codes.push((o, op));
         o = o.saturating_sub(if many_pushes { 2 } else { 4 + p.below(6) as u8 });
